@@ -42,7 +42,8 @@ def gen_plan(rng, tier, index):
     ops = []
     for _ in range(n_ops):
         op = rng.wpick([('bootstrap_sample', 4), ('bootstrap_sample_rdm', 2), ('bootstrap_sample_pattern', 3),
-                        ('subsample', 1), ('subsample_pattern', 1.5), ('reorder', 1), ('sort_by', 0.7), ('get_matrices', 0.5)])
+                        ('subsample', 1), ('subsample_pattern', 1.5), ('reorder', 1), ('sort_by', 0.7), ('get_matrices', 0.5),
+                        ('relabel', 0.7)])
         o = {'op': op, 'src': rng.randrange(0, 8) if rng.chance(0.45) else 0,
              'rdm_desc': rng.pick(['grp', 'grp', 'index', 'uid']),
              'pat_desc': rng.pick(['grp', 'grp', 'index', 'uid'] + (['pos'] if 'pos' in spec['pat_desc'] else []))}
@@ -50,7 +51,7 @@ def gen_plan(rng, tier, index):
             o['picks'] = [rng.randrange(0, 12) for _ in range(rng.randint(1, 7))]
             o['by_none'] = rng.chance(0.5)
             o['as_array'] = rng.chance(0.5)
-        if op in ('reorder', 'sort_by'):
+        if op in ('reorder', 'sort_by', 'relabel'):
             o['perm_seed'] = rng.randrange(10 ** 6)
         ops.append(o)
     kinds = rng.subset(RANDINT_FAULTS, 0.2, 0.9)
@@ -215,6 +216,8 @@ def execute(plan, ctx):
     objs = [gen.build_rdms(spec)]
     probs = check_assoc(objs[0], *tabs, value_fn=vfn)
     tabs = tuple(tabs) + (vfn,)
+    tabs0 = tabs
+    tabs_of = {}        # per object: the reference tables after a relabelling of that object (samples inherit their source's)
     if probs:
         raise HarnessError(f'generator produced an inconsistent source: {probs[:2]}')
     seam = RngSeam(ctx, plan['serve_seed'], plan.get('faults'), script=plan.get('draw_script'),
@@ -224,6 +227,30 @@ def execute(plan, ctx):
             op = o['op']
             src = objs[o.get('src', 0) % len(objs)]
             rd, pdn = o.get('rdm_desc', 'index'), o.get('pat_desc', 'index')
+            tabs = tabs_of.get(id(src), tabs0)
+            if op == 'relabel':
+                # the user re-assigns the values of a grouping descriptor (same items, other group membership): draws made
+                # afterwards must follow the labels as they are now
+                import random as _random
+                ax = 'rdm' if o['perm_seed'] % 2 else 'pattern'
+                dd = src.rdm_descriptors if ax == 'rdm' else src.pattern_descriptors
+                uids = normlist(dd['uid'])
+                if 'grp' not in dd or len(set(uids)) < len(uids) or len(uids) < 2:
+                    ctx.probe('relabel_not_applicable')
+                    continue
+                old_vals = list(dd['grp']) if not isinstance(dd['grp'], np.ndarray) else dd['grp'].tolist()
+                k = 1 + o['perm_seed'] % (len(old_vals) - 1)
+                new_vals = old_vals[k:] + old_vals[:k]
+                dd['grp'] = np.array(new_vals) if isinstance(dd['grp'], np.ndarray) else new_vals
+                ti = 0 if ax == 'rdm' else 1
+                tab = {u: dict(v) for u, v in tabs[ti].items()}
+                for u, v in zip(uids, new_vals):
+                    tab[u]['grp'] = v
+                tabs = tuple(tab if i_ == ti else t for i_, t in enumerate(tabs))
+                tabs_of[id(src)] = tabs
+                ctx.tick('op', op=op, src=o.get('src', 0) % len(objs), axis=ax, shift=k)
+                ctx.probe('relabel_between_draws')
+                continue
             r_distinct, r_gv, r_uids = _groups(src, 'rdm', rd)
             p_distinct, p_gv, p_uids = _groups(src, 'pattern', pdn)
             ctx.tick('op', op=op, src=o.get('src', 0) % len(objs), rdm_desc=rd, pat_desc=pdn)
@@ -249,6 +276,7 @@ def execute(plan, ctx):
                 probs = check_assoc(src, *tabs[:3], value_fn=vfn)
                 if probs:
                     ctx.probe('source_inconsistent_after_inplace_op')     # C10's business; do not resample from it
+                    tabs_of.pop(id(src), None)
                     objs = [x for x in objs if x is not src] or [gen.build_rdms(spec)]
                 ctx.probe('inplace_ops_between_draws')
                 continue
@@ -310,4 +338,5 @@ def execute(plan, ctx):
                 ctx.probe('resample_of_resample')
             ctx.nontrivial = True
             objs.append(sample)
+            tabs_of[id(sample)] = tabs
     ctx.draw_script = seam.script_of_served()
